@@ -17,7 +17,7 @@ PROPERTY = "C08"
 LEVEL = "model_checking"
 ASSUMPTIONS = ["resolvers are pure and suspend once (one scheduling point each)",
                "callback-level scheduling of one asyncio loop; threads / cancellation from outside are not modelled"]
-BUDGET_S = {"quick": 150, "thorough": 3000}
+BUDGET_S = {"quick": 600, "thorough": 3000}
 
 REQUESTS = [
     "{ num color a { id } }",
